@@ -19,7 +19,7 @@ func init() {
 		Explanation: "Decides the structural causes of races, not their absence in general: R1 effect analysis: over everything reachable from the Transaction API (VTA call graph) no store, map update, delete or append writes memory whose access path goes through a shared object (WAF, Rule, RuleGroup, operator/action/writer/formatter/body-processor structs, package variables), " +
 			"per-transaction copies of rule data are made fresh before being appended to (path query with infeasible-branch pruning), reference-typed transaction fields that alias WAF storage are never written through, and the lazy audit-writer initialisation is dead for WAFs built by coraza.NewWAF; " +
 			"R2 guarded-by table: every access to the process-wide tables (memoize entries, random source, transformation-id tables, concurrent audit index) happens with the associated lock held, writes exclusively; R3 no lock is acquired while another module lock is held (lock-order graph has no edge, hence no cycle); " +
-			"R4 the transaction pool is only used by newTransaction (Get) and Close (deferred Put); R2 also: no mutex is locked through a by-value copy of the struct that holds it; R5 a value derived from an object by appending to one of its slices (a logger with more context, an event, a copied list) never grows into the parent's spare capacity: the source is clipped or cloned first.",
+			"R4 the transaction pool is only used by newTransaction (Get) and Close (deferred Put); R2 also: no mutex is locked through a by-value copy of the struct that holds it; R5 a value derived from an object by appending to one of its slices (a logger with more context, an event, a copied list) never grows into the parent's spare capacity: the source is clipped or cloned first; R6 a goroutine the library starts itself is given no transaction state (arguments and captures) and can complete each of its sends without a receiver when its starter may stop waiting.",
 		NotDecided: []string{
 			"absence of data races in general (needs a happens-before argument over schedules)",
 			"deadlock freedom beyond the module's own locks",
@@ -208,6 +208,135 @@ func runC06(c *an.Ctx) {
 
 	// ---- R4 pool discipline (shared with C05.R5).
 	c06Pool(c)
+
+	// ---- R6 goroutines started by the library.
+	c06Goroutines(c)
+}
+
+// c06Goroutines: a transaction belongs to the goroutine that drives it and goes back to the pool
+// when that goroutine closes it.  A goroutine the library starts on its own (an operator doing
+// a lookup with a timeout) may outlive the call that started it, so (a) nothing it is given or
+// captures may be transaction state — it would write into a transaction that has been recycled
+// — and (b) every send it performs must be able to complete without a receiver (buffered
+// channel) when the starter receives inside a select with another way out, otherwise the
+// goroutine blocks forever.
+func c06Goroutines(c *an.Ctx) {
+	isTxType := func(t types.Type) bool {
+		str := t.String()
+		return strings.HasSuffix(str, "plugintypes.TransactionState") || strings.HasSuffix(str, "corazawaf.Transaction") ||
+			strings.HasSuffix(str, "types.Transaction") || strings.HasSuffix(str, "plugintypes.TransactionVariables")
+	}
+	n := 0
+	for _, fn := range c.P.ModFuncs {
+		if p := relPkg(fn); strings.HasPrefix(p, "testing") || strings.HasPrefix(p, "examples") {
+			continue
+		}
+		nf := 0
+		an.Instrs(fn, func(in ssa.Instruction) {
+			g, ok := in.(*ssa.Go)
+			if !ok {
+				return
+			}
+			n++
+			nf++
+			c.FuncsAnalysed[fn] = true
+			key := fmt.Sprintf("goroutine #%d started in %s", nf, an.RelName(fn))
+			var given []ssa.Value
+			given = append(given, g.Call.Args...)
+			var body *ssa.Function
+			switch v := g.Call.Value.(type) {
+			case *ssa.MakeClosure:
+				given = append(given, v.Bindings...)
+				body, _ = v.Fn.(*ssa.Function)
+			case *ssa.Function:
+				body = v
+			}
+			var bad []string
+			for _, v := range given {
+				t := v.Type()
+				if pt, ok := t.(*types.Pointer); ok {
+					// a captured variable is bound by address
+					if isTxType(pt.Elem()) {
+						bad = append(bad, tempName.ReplaceAllString(an.Expr(v), "")+" ("+pt.Elem().String()+")")
+						continue
+					}
+				}
+				if isTxType(t) {
+					bad = append(bad, tempName.ReplaceAllString(an.Expr(v), "")+" ("+t.String()+")")
+				}
+			}
+			c.Check(len(bad) == 0, "R6", key+" is given no transaction state", g.Pos(), "captures and arguments carry no transaction", "the goroutine is handed "+strings.Join(bad, ", ")+": it can run after the call that started it has returned (timeouts), i.e. on a transaction that was closed, recycled and is being used by another request")
+			if body == nil {
+				c.Unknown("R6", key+" body resolves", g.Pos(), "the goroutine's function is not statically known")
+				return
+			}
+			// sends inside the goroutine
+			starterSelects := false
+			an.Instrs(fn, func(x ssa.Instruction) {
+				if sel, ok := x.(*ssa.Select); ok && (len(sel.States) > 1 || !sel.Blocking) {
+					starterSelects = true
+				}
+			})
+			ns := 0
+			an.Instrs(body, func(x ssa.Instruction) {
+				snd, ok := x.(*ssa.Send)
+				if !ok {
+					return
+				}
+				ns++
+				ch := snd.Chan
+				if fv, ok := ch.(*ssa.FreeVar); ok {
+					if mc, ok := g.Call.Value.(*ssa.MakeClosure); ok {
+						for i, f := range body.FreeVars {
+							if f == fv && i < len(mc.Bindings) {
+								ch = mc.Bindings[i]
+							}
+						}
+					}
+				}
+				if u, ok := ch.(*ssa.UnOp); ok && u.Op == token.MUL {
+					if fv, ok := u.X.(*ssa.FreeVar); ok {
+						if mc, ok := g.Call.Value.(*ssa.MakeClosure); ok {
+							for i, f := range body.FreeVars {
+								if f == fv && i < len(mc.Bindings) {
+									ch = mc.Bindings[i]
+								}
+							}
+						}
+					}
+				}
+				// the binding is the address of the starter's variable: find what is stored there
+				size := int64(-1)
+				if al, ok := ch.(*ssa.Alloc); ok {
+					for _, r := range *al.Referrers() {
+						if st, ok := r.(*ssa.Store); ok && st.Addr == al {
+							if mk, ok := st.Val.(*ssa.MakeChan); ok {
+								if k, ok := an.ConstInt(mk.Size); ok {
+									size = k
+								}
+							}
+						}
+					}
+				} else if mk, ok := ch.(*ssa.MakeChan); ok {
+					if k, ok := an.ConstInt(mk.Size); ok {
+						size = k
+					}
+				}
+				k2 := fmt.Sprintf("%s: send #%d can complete without a receiver", key, ns)
+				switch {
+				case !starterSelects:
+					c.OkTrivial("R6", k2, snd.Pos(), "the starter receives unconditionally")
+				case size >= 1:
+					c.Ok("R6", k2, snd.Pos(), fmt.Sprintf("channel made with capacity %d", size))
+				case size == 0:
+					c.Bad("R6", k2, snd.Pos(), "the goroutine sends on an unbuffered channel while its starter receives inside a select with another way out (timeout): once the starter has left, the send blocks forever and the goroutine (with everything it references) is never released")
+				default:
+					c.Unknown("R6", k2, snd.Pos(), "the channel's capacity is not visible")
+				}
+			})
+		})
+	}
+	c.MinCount("R6", "goroutines started by the library", n, 0)
 }
 
 // lockProtected: the instruction runs with some sync lock of the module held (decided by R2).
